@@ -140,7 +140,12 @@ def _c04(tier, seed):
 
 
 def _c16(tier, seed):
-    return p_family("score", tier, seed)
+    return ["h_unit::c16a_piece_value_is_table_entry", "h_unit::c16d_phase_switch_kings_e1_e8", "h_unit::c16d_phase_switch_kings_d4_f6", "h_unit::c16d_phase_switch_full_material"] + p_family("score", tier, seed)
+
+
+def _c05(tier, seed):
+    return ["h_unit::c05_square_content_changes_key", "h_unit::c05_state_and_side_change_key", "h_unit::c05_state_byte_is_the_features",
+            "h_unit::c04a_piece_key_pinned_to_file", "h_unit::c04a_state_side_empty_keys_pinned_to_file"]
 
 
 def _c15(tier, seed):
@@ -228,6 +233,13 @@ PROPS["C20"] = dict(select=_c20, witnesses=["h_text::c20_witness"], timeout=1500
                     functions=["chess::move_struct::Move::pgn_notation", "chess::piece::Piece::as_str_pgn"],
                     bounds="all move values per kind (every piece, owner, square pair, captured piece, promotion piece); the diagram and FEN/hash lines of `show` are covered by C11/C04 lemmas, not here; unwind 9 with unwinding assertions",
                     assumptions=TEXT_ASSUME[:1] + TEXT_ASSUME[2:], native_replay=True)
+
+
+PROPS["C05"] = dict(select=_c05, witnesses=["h_unit::unit_witness"], timeout=900,
+                    functions=["chess::piece::Piece::{hash,as_index}", "chess::gamestate::GameState::{hash, accessors, setters}", "chess::zobrist::{PIECE,STATE,EMPTY_PLACE,BLACK_TO_MOVE}"],
+                    bounds="all 64 squares x all pairs of the 13 contents; all pairs of the 256 state bytes; all state bytes for the accessor/setter laws; no loop bound needed. NOT covered (outside solver reach, stated in DESIGN.md): collision freedom among the millions of positions a search explores, and pairs of positions differing in two or more features",
+                    assumptions=["single-feature sensitivity of the whole hash follows from these key laws together with C04 (hash = xor of the feature keys of the position, proved by the C04 check)"],
+                    native_replay=True)
 
 
 def _c13(tier, seed):
